@@ -86,7 +86,7 @@ def _run_one(c: Cond) -> Res:
     t0 = time.time()
     hard = c.timeout * 2.5 + 60
     env = dict(os.environ)
-    env["PYTHONPATH"] = C.VERIF + os.pathsep + os.path.dirname(c.file) + os.pathsep + env.get("PYTHONPATH", "")
+    env["PYTHONPATH"] = os.pathsep.join([C.VERIF, os.path.dirname(c.file), os.path.join(C.VERIF, "harness"), env.get("PYTHONPATH", "")])
     env["PYTHONHASHSEED"] = "0"
     cmd = [sys.executable, "-m", "vf.xh_worker", str(c.timeout), f"{c.file}:{c.line}"]
     try:
@@ -170,7 +170,7 @@ def _run_batch(conds: list[Cond]) -> list[Res]:
     tmo = max(c.timeout for c in conds)
     hard = sum(c.timeout for c in conds) * 2.0 + 60
     env = dict(os.environ)
-    env["PYTHONPATH"] = C.VERIF + os.pathsep + os.path.dirname(conds[0].file) + os.pathsep + env.get("PYTHONPATH", "")
+    env["PYTHONPATH"] = os.pathsep.join([C.VERIF, os.path.dirname(conds[0].file), os.path.join(C.VERIF, "harness"), env.get("PYTHONPATH", "")])
     env["PYTHONHASHSEED"] = "0"
     cmd = [sys.executable, "-m", "vf.xh_worker", str(tmo)] + [f"{c.file}:{c.line}" for c in conds]
     try:
@@ -236,6 +236,9 @@ def load(genfile: str):
         d = os.path.dirname(genfile)
         if d not in sys.path:
             sys.path.insert(0, d)
+        h = os.path.join(C.VERIF, "harness")  # a harness may import another harness module (static preludes only)
+        if h not in sys.path:
+            sys.path.append(h)
         spec = importlib.util.spec_from_file_location(name, genfile)
         mod = importlib.util.module_from_spec(spec)
         sys.modules[name] = mod
